@@ -180,16 +180,27 @@ class WC(CombinatorialClass[W]):
     def extra_parameters(self):
         return tuple(k for k, _ in self.stats)
 
-    def stat_value(self, name, word):
-        letters = dict(self.stats)[name]
+    # sided statistics (pair classes only): letters marked '<' are counted in the left word of a
+    # pair u|v only, letters marked '>' in the right word only (no mark: in both)
+    @staticmethod
+    def _count(letters, word):
+        if "|" in word and ("<" in letters or ">" in letters):
+            u, v = word.split("|", 1)
+            word = u if "<" in letters else v
         return sum(1 for c in word if c in letters)
 
+    def stat_value(self, name, word):
+        return self._count(dict(self.stats)[name], word)
+
     def get_parameters(self, obj):
-        return tuple(sum(1 for c in obj if c in letters) for _, letters in self.stats)
+        return tuple(self._count(letters, obj) for _, letters in self.stats)
 
     def get_minimum_value(self, parameter):
         if self.right is not None:
-            return self.left_part().get_minimum_value(parameter) + self.right.get_minimum_value(parameter)
+            letters = dict(self.stats)[parameter]
+            left = 0 if ">" in letters else self.left_part().get_minimum_value(parameter)
+            right = 0 if "<" in letters else self.right.get_minimum_value(parameter)
+            return left + right
         base_value = self.stat_value(parameter, self.prefix)
         if self.proper:
             letters = dict(self.stats)[parameter]
@@ -609,6 +620,24 @@ class SplitPair(_Opts, CartesianProductStrategy[WC, W]):
             plan[k] = first[r]
         return plan
 
+    @staticmethod
+    def _sided(c):
+        return any("<" in l or ">" in l for _, l in c.stats)
+
+    @staticmethod
+    def _side_plan(c, mark):
+        """Parent statistic -> statistic of the factor on the side `mark` ('<' or '>'): the
+        statistics counted on that side, named after their letters (so that two equal words
+        classes on the two sides are one class with one statistic list, reached by different
+        parent statistics)."""
+        other = ">" if mark == "<" else "<"
+        return {k: "u_" + l.replace(mark, "") for k, l in c.stats if other not in l}
+
+    def _side_part(self, c, part, mark):
+        plan = self._side_plan(c, mark)
+        letters = {k: l.replace(mark, "") for k, l in c.stats if k in plan}
+        return part.with_(stats=sorted({(plan[k], letters[k]) for k in plan}))
+
     def _part(self, part):
         if not self.merge:
             return part
@@ -624,7 +653,10 @@ class SplitPair(_Opts, CartesianProductStrategy[WC, W]):
     def decomposition_function(self, c):
         if c.right is None or c.is_empty():
             return None
-        kids = [self._part(c.left_part()), self._bar(c), self._part(c.right)]
+        if self._sided(c):
+            kids = [self._side_part(c, c.left_part(), "<"), self._bar(c), self._side_part(c, c.right, ">")]
+        else:
+            kids = [self._part(c.left_part()), self._bar(c), self._part(c.right)]
         if self.bar_first:
             kids = [kids[1], kids[0], kids[2]]
         return tuple(kids)
@@ -634,6 +666,11 @@ class SplitPair(_Opts, CartesianProductStrategy[WC, W]):
             children = self.decomposition_function(c)
             if children is None:
                 raise StrategyDoesNotApply("Strategy does not apply")
+        if self._sided(c):
+            maps = [self._side_plan(c, "<"), {}, self._side_plan(c, ">")]
+            if self.bar_first:
+                maps = [maps[1], maps[0], maps[2]]
+            return tuple(maps)
         if not self.merge:
             return tuple({k: k for k in ch.extra_parameters} for ch in children)
         parts = [c.left_part(), None, c.right]
@@ -899,6 +936,11 @@ class ExpandFactory(StrategyFactory[WC]):
 
             yield Rule(strat, c)
             yield Rule(RemoveFront(drop=self.drop), c)  # applies only to some classes
+            # ... and a verification rule whose (empty) tuple of children is left to be computed:
+            # asking for it tells whether the class is verified at all
+            from comb_spec_searcher.strategies.rule import VerificationRule
+
+            yield VerificationRule(StatAtom(), c)
             return
         if self.mode == 5:
             # the class's own strategy, and for the class with the prefix one letter shorter a
@@ -1182,6 +1224,32 @@ class PrefixVerified(VerificationStrategy[WC, W]):
                 f"{', nopack=%d' % self.nopack if self.nopack else ''})")
 
 
+class DepVerified(PrefixVerified):
+    """PrefixVerified whose rules have a child: the verification of C(p) is declared to depend on
+    the atom {p} (the documented special case of a verification rule with children)."""
+
+    def decomposition_function(self, c):
+        if not self.verified(c):
+            return None
+        return (c.with_(just_prefix=True, stats=atom_stats(c, c.prefix, False)),)
+
+    def formal_step(self):
+        return f"prefix of length >= {self.minlen} (brute force, depends on its atom)"
+
+    def __repr__(self):
+        return f"DepVerified(minlen={self.minlen})"
+
+
+class SubAtom(AtomStrategy):
+    """A user strategy deriving from the library's AtomStrategy without a from_dict of its own."""
+
+    def formal_step(self):
+        return "is atom (user subclass of the library's strategy)"
+
+    def __repr__(self):
+        return "SubAtom()"
+
+
 class PackVerified(VerificationStrategy[WC, W]):
     """Verifies like PrefixVerified but brings no enumeration of its own: terms, objects,
     generating functions and samples come from the library's defaults, which search the class
@@ -1229,7 +1297,7 @@ def offered_packs(opts):
     o = dict(PACK_DEFAULTS)
     o.update(opts or {})
     out = []
-    if str(o["ver"]).startswith("searched"):
+    if str(o["ver"]).startswith(("searched", "dep")):
         out.append(make_pack({"ver": "atom"}))
     if str(o["ver"]).startswith("prefix"):
         k, nest = int(o["ver"][6:]), int(o.get("nest", 0))
@@ -1281,6 +1349,10 @@ def make_pack(opts=None):
         ver = [StatAtom()]
     elif o["ver"] == "libatom":
         ver = [AtomStrategy()]
+    elif o["ver"] == "subatom":
+        ver = [SubAtom()]
+    elif str(o["ver"]).startswith("dep"):
+        ver = [StatAtom(), DepVerified(int(o["ver"][3:]))]
     elif str(o["ver"]).startswith("searched"):
         ver = [StatAtom(), PackVerified(int(o["ver"][8:]))]
     else:
